@@ -284,10 +284,10 @@ class StructuredGrid(Grid):
 
     def backUp(self):
         """Gather internal info that should be restored within a retainState."""
-        self._backup = self._unitSteps, self._bounds, self._offset
+        self._backup = self._unitSteps, self._bounds, self._offset, self._backup
 
     def restoreBackup(self):
-        self._unitSteps, self._bounds, self._offset = self._backup
+        self._unitSteps, self._bounds, self._offset, self._backup = self._backup
 
     def getCoordinates(self, indices, nativeCoords=False) -> np.ndarray:
         """Return the coordinates of the center of the mesh cell at the given indices
